@@ -34,7 +34,8 @@ Ret(th) ==
    LET c == call[th] IN
    /\ Ev.op = c.op
    /\ IF Ev.exc # ""
-      THEN \/ /\ Ev.exc = "RuntimeError" /\ c.op \in Readers /\ c.st \in {"called", "snapped"} /\ c.ovl
+      THEN \/ /\ Ev.exc = "ValueError" /\ RetRefused(th) /\ UNCHANGED devs
+           \/ /\ Ev.exc = "RuntimeError" /\ c.op \in Readers /\ c.st \in {"called", "snapped"} /\ c.ovl
               /\ DevRet(th, "Dev_IterRace")
            \/ /\ Ev.exc = "AttributeError" /\ c.op \in Readers /\ c.st \in {"called", "snapped"} /\ c.half
               /\ DevRet(th, "Dev_HalfCreated")
